@@ -269,3 +269,225 @@ Theorem plain_moves_accepted :
 Proof. exact CmdArgs.plain_moves_accepted. Qed.
 Print Assumptions plain_moves_accepted.
 
+
+(* ---- the converse and the end-to-end statement (CmdConverse.v). command_stmt_accepted / plain_command_exact: every token sequence
+   command_stmt accepts is a command of the argument grammar (for streams without format() / moves(): accepted IFF in the grammar
+   with balanced parentheses). patched_arguments / stretch_hoisted_gen: what every argument becomes after hoisting, with NO
+   well-formedness premise (final_arg: the label of the last moves() of the group, else of the last inline text, else the
+   rendered tokens - boundaries B5 / B10 as a theorem). emit_script_cmds / script_text_cmds: a body of commands is emitted as
+   the label, one line per command in source order, the terminator. straight_line_script(_text): from the source tokens of
+   `script NAME { commands }` to the output text, both settings: nothing dropped, duplicated, merged or reordered.
+   condition_command: an AutoVar command inside a condition is the same command, rendered by the same render_cmd.
+   chunks_are_source_stretches / stretch_rendered_in_order: inside control constructs every chunk holds consecutive simple
+   statements of one source block, rendered consecutively in source order. Premise final_endret_bare: a final end / return
+   written WITH arguments is rendered without them (known finding D22). ---- *)
+From Pory Require Import CmdConverse. Open Scope list_scope.
+Theorem command_stmt_accepted :
+  forall (switches : list (text * text)) (env_errors : bool) (parse_format : toks -> res (token * text * text * toks))
+    (consts : list (text * text)),
+  (forall (ts : toks) (tk : token) (v sty : text) (ts' : toks),
+   parse_format ts = Ok (tk, v, sty, ts') -> forall a : toks, advs a ts -> advs a ts') ->
+  forall (f : nat) (script : text) (ts : toks) (c : cmd) (imp : impdata) (ts' : toks),
+  eof_ended ts ->
+  command_stmt switches env_errors parse_format consts f script ts = Ok (c, imp, ts') ->
+  peekis LPAREN ts = false /\
+  ts' = ts /\ imp = imp0 /\ c = {| cname := tlit (cur ts); cargs := []; ctok := cur ts; Ast.cid := Datatypes.length ts |} \/
+  (exists (name lp : token) (a : arglist) (rp : token) (rest : list token),
+     ts = name :: lp :: arg_tokens a ++ rp :: rest /\
+     ts' = rp :: rest /\
+     ttype lp = LPAREN /\
+     ttype rp = RPAREN /\
+     wf_args_at switches env_errors parse_format a (rp :: rest) /\
+     balanced (flat a) /\ c = cmd_of consts name a (Datatypes.length ts) /\ imp = imp_of script name a (Datatypes.length ts)).
+Proof. exact CmdConverse.command_stmt_accepted. Qed.
+Print Assumptions command_stmt_accepted.
+
+Theorem command_stmt_accepted_plain :
+  forall (switches : list (text * text)) (env_errors : bool) (parse_format : toks -> res (token * text * text * toks))
+    (consts : list (text * text)),
+  (forall (ts : toks) (tk : token) (v sty : text) (ts' : toks),
+   parse_format ts = Ok (tk, v, sty, ts') -> forall a : toks, advs a ts -> advs a ts') ->
+  forall (f : nat) (script : text) (ts : toks) (c : cmd) (imp : impdata) (ts' : toks),
+  eof_ended ts ->
+  Forall no_subparser_tok ts ->
+  peekis LPAREN ts = true ->
+  command_stmt switches env_errors parse_format consts f script ts = Ok (c, imp, ts') ->
+  exists (name lp : token) (a : arglist) (rp : token) (rest : list token),
+    ts = name :: lp :: arg_tokens a ++ rp :: rest /\
+    ts' = rp :: rest /\
+    ttype lp = LPAREN /\
+    ttype rp = RPAREN /\
+    wf_args switches env_errors parse_format a /\
+    balanced (flat a) /\ c = cmd_of consts name a (Datatypes.length ts) /\ imp = imp_of script name a (Datatypes.length ts).
+Proof. exact CmdConverse.command_stmt_accepted_plain. Qed.
+Print Assumptions command_stmt_accepted_plain.
+
+Theorem plain_command_exact :
+  forall (switches : list (text * text)) (env_errors : bool) (parse_format : toks -> res (token * text * text * toks))
+    (consts : list (text * text)),
+  (forall (ts : toks) (tk : token) (v sty : text) (ts' : toks),
+   parse_format ts = Ok (tk, v, sty, ts') -> forall a : toks, advs a ts -> advs a ts') ->
+  forall (script : text) (ts : toks),
+  eof_ended ts ->
+  Forall no_subparser_tok ts ->
+  peekis LPAREN ts = true ->
+  (exists (f : nat) (c : cmd) (imp : impdata) (ts' : toks), command_stmt switches env_errors parse_format consts f script ts = Ok (c, imp, ts')) <->
+  (exists (name lp : token) (a : arglist) (rp : token) (rest : list token),
+     ts = name :: lp :: arg_tokens a ++ rp :: rest /\
+     ttype lp = LPAREN /\ ttype rp = RPAREN /\ wf_args switches env_errors parse_format a /\ balanced (flat a)).
+Proof. exact CmdConverse.plain_command_exact. Qed.
+Print Assumptions plain_command_exact.
+
+Theorem balanced_iff_depth :
+  forall es : list elem, balanced es <-> depth_e 0 es = Some 0.
+Proof. exact CmdConverse.balanced_iff_depth. Qed.
+Print Assumptions balanced_iff_depth.
+
+Theorem patched_arguments :
+  forall (consts : list (text * text)) (script : text) (name : token) (a : arglist) (n : nat) (impB impA : impdata) 
+    (h h' : hst) (ps : list patch),
+  (forall it : imptext, In it (idT impB ++ idT impA) -> itCid it <> n) ->
+  (forall im : impmov, In im (idM impB ++ idM impA) -> imCid im <> n) ->
+  add_implicit (impadd impB (impadd (imp_of script name a n) impA)) h = (h', ps) ->
+  exists args' : list text,
+    pcmd ps (cmd_of consts name a n) = {| cname := tlit name; cargs := args'; ctok := name; Ast.cid := n |} /\
+    Forall2 (final_arg consts h') (strip_last_empty (groups_of a)) args'.
+Proof. exact CmdConverse.patched_arguments. Qed.
+Print Assumptions patched_arguments.
+
+Theorem stretch_hoisted_gen :
+  forall (consts : list (text * text)) (script : text) (l : list cmdsrc) (K : list token) (impB impA : impdata) (h h' : hst) (ps : list patch),
+  (forall it : imptext, In it (idT impB) -> Datatypes.length (flat_map cmd_tokens l ++ K) < itCid it) ->
+  (forall im : impmov, In im (idM impB) -> Datatypes.length (flat_map cmd_tokens l ++ K) < imCid im) ->
+  (forall it : imptext, In it (idT impA) -> itCid it <= Datatypes.length K) ->
+  (forall im : impmov, In im (idM impA) -> imCid im <= Datatypes.length K) ->
+  add_implicit (impadd (block_imp script l K impB) impA) h = (h', ps) ->
+  exists cs : list cmd, map (pstmt ps) (block_cmds consts l K) = map SCmd cs /\ Forall2 (final_command consts h') l cs.
+Proof. exact CmdConverse.stretch_hoisted_gen. Qed.
+Print Assumptions stretch_hoisted_gen.
+
+Theorem emit_script_cmds :
+  forall (mp : option text) (tl : list text) (name : text) (glob optimize : bool) (cs : list cmd),
+  emit_script mp tl name glob optimize (map SCmd cs) =
+  Emitter.Ok (ILabel name glob :: flat_map (render_stmt mp) (map SCmd (kept_cmds cs)) ++ [terminator cs; IBlank]).
+Proof. exact CmdConverse.emit_script_cmds. Qed.
+Print Assumptions emit_script_cmds.
+
+Theorem emit_script_cmds_nomarkers :
+  forall (tl : list text) (name : text) (glob optimize : bool) (cs : list cmd),
+  emit_script None tl name glob optimize (map SCmd cs) = Emitter.Ok (ILabel name glob :: map ICmd (kept_cmds cs) ++ [terminator cs; IBlank]).
+Proof. exact CmdConverse.emit_script_cmds_nomarkers. Qed.
+Print Assumptions emit_script_cmds_nomarkers.
+
+Theorem script_text_cmds :
+  forall (tl : list text) (name : text) (glob optimize : bool) (cs : list cmd),
+  final_endret_bare cs ->
+  exists is : list instr,
+    emit_script None tl name glob optimize (map SCmd cs) = Emitter.Ok is /\
+    print_instrs None is =
+    name ++
+    (if glob then t "::" else t ":") ++
+    nl ++ flat_map render_cmd cs ++ match last_endret cs with
+                                    | Some _ => []
+                                    | None => tab ++ t "return" ++ nl
+                                    end ++ nl.
+Proof. exact CmdConverse.script_text_cmds. Qed.
+Print Assumptions script_text_cmds.
+
+Theorem straight_line_script :
+  forall (autovars : list (text * autovar)) (switches : list (text * text)) (env_errors : bool)
+    (parse_format : toks -> res (token * text * text * toks)) (consts : list (text * text)) (l : list cmdsrc),
+  Forall (wf_cmdsrc switches env_errors parse_format) l ->
+  forall (F : nat) (hd : list token) (g : bool) (name lb rb : token) (rest : list token),
+  script_head hd g ->
+  ttype name = IDENT ->
+  ttype lb = LBRACE ->
+  ttype rb = RBRACE ->
+  Datatypes.length (flat_map cmd_tokens l) + 2 < F ->
+  exists (b : list stmt) (imp : impdata),
+    parse_script autovars switches env_errors parse_format consts F (hd ++ name :: lb :: flat_map cmd_tokens l ++ rb :: rest) =
+    Ok (tlit name, g, b, imp, rb :: rest) /\
+    (forall (h h' : hst) (ps : list patch),
+     add_implicit imp h = (h', ps) ->
+     exists cs : list cmd,
+       map (pstmt ps) b = map SCmd cs /\
+       Forall2 (final_command consts h') l cs /\
+       (forall (tl : list text) (optimize : bool),
+        emit_script None tl (tlit name) g optimize (map (pstmt ps) b) =
+        Emitter.Ok (ILabel (tlit name) g :: map ICmd (kept_cmds cs) ++ [terminator cs; IBlank]))).
+Proof. exact CmdConverse.straight_line_script. Qed.
+Print Assumptions straight_line_script.
+
+Theorem straight_line_script_text :
+  forall (autovars : list (text * autovar)) (switches : list (text * text)) (env_errors : bool)
+    (parse_format : toks -> res (token * text * text * toks)) (consts : list (text * text)) (l : list cmdsrc),
+  Forall (wf_cmdsrc switches env_errors parse_format) l ->
+  Forall plain_cmdsrc l ->
+  src_final_bare l ->
+  forall (F : nat) (hd : list token) (g : bool) (name lb rb : token) (rest : list token),
+  script_head hd g ->
+  ttype name = IDENT ->
+  ttype lb = LBRACE ->
+  ttype rb = RBRACE ->
+  Datatypes.length (flat_map cmd_tokens l) + 2 < F ->
+  exists (b : list stmt) (imp : impdata),
+    parse_script autovars switches env_errors parse_format consts F (hd ++ name :: lb :: flat_map cmd_tokens l ++ rb :: rest) =
+    Ok (tlit name, g, b, imp, rb :: rest) /\
+    (forall (h h' : hst) (ps : list patch) (tl : list text) (optimize : bool),
+     add_implicit imp h = (h', ps) ->
+     exists is : list instr,
+       emit_script None tl (tlit name) g optimize (map (pstmt ps) b) = Emitter.Ok is /\
+       print_instrs None is =
+       tlit name ++
+       (if g then t "::" else t ":") ++ nl ++ flat_map (src_line consts) l ++ (if src_needs_return l then tab ++ t "return" ++ nl else []) ++ nl).
+Proof. exact CmdConverse.straight_line_script_text. Qed.
+Print Assumptions straight_line_script_text.
+
+Theorem condition_command :
+  forall (autovars : list (text * autovar)) (switches : list (text * text)) (env_errors : bool)
+    (parse_format : toks -> res (token * text * text * toks)) (consts : list (text * text)) (script : text) (f : nat) 
+    (pre name lp : token) (a : arglist) (rp : token) (R : list token) (av : autovar) (v : text) (l : leaf) (imp : impdata) 
+    (rest : toks),
+  AutoVarParse.cmd_ok switches env_errors parse_format name lp a rp ->
+  assoc autovars (tlit name) = Some av ->
+  AutoVarParse.compared_var av (AutoVarParse.parsed_cmd consts name lp a rp R) = Some v ->
+  Datatypes.length (arg_tokens a) < f ->
+  R <> [] ->
+  leaf_expr autovars switches env_errors parse_format consts f script (pre :: name :: lp :: arg_tokens a ++ rp :: R) = Ok (l, imp, rest) ->
+  let n := Datatypes.length (name :: lp :: arg_tokens a ++ rp :: R) in
+  lpre l = Some (cmd_of consts name a n) /\
+  imp = imp_of script name a n /\
+  (forall (impB impA : impdata) (h h' : hst) (ps : list patch),
+   (forall it : imptext, In it (idT impB ++ idT impA) -> itCid it <> n) ->
+   (forall im : impmov, In im (idM impB ++ idM impA) -> imCid im <> n) ->
+   add_implicit (impadd impB (impadd imp impA)) h = (h', ps) ->
+   exists args' : list text,
+     let c' := {| cname := tlit name; cargs := args'; ctok := name; Ast.cid := n |} in
+     lpre (pleaf ps l) = Some c' /\
+     Forall2 (final_arg consts h') (strip_last_empty (groups_of a)) args' /\
+     (forall (mp : option text) (nm : text) (ch : chunk) (next tr fa : Z),
+      cbr ch = Some (BrLeaf (pleaf ps l) tr fa) ->
+      exists more : list instr,
+        Datatypes.fst (Datatypes.fst (render_branch mp nm ch next)) = ICmd c' :: more /\ print_instr [] (ICmd c') = render_cmd c')).
+Proof. exact CmdConverse.condition_command. Qed.
+Print Assumptions condition_command.
+
+Theorem chunks_are_source_stretches :
+  forall (body : list stmt) (w : wst),
+  emit_graph body = Emitter.Ok w ->
+  Worklist.src_ok body -> forall c : chunk, In c (finals w) -> Forall Tr.simple (cstmts c) /\ stretch_of body (cstmts c).
+Proof. exact CmdConverse.chunks_are_source_stretches. Qed.
+Print Assumptions chunks_are_source_stretches.
+
+Theorem stretch_rendered_in_order :
+  forall (mp : option text) (tl : list text) (name : text) (glob optimize : bool) (body : list stmt) (w : wst) (code : list instr),
+  emit_graph body = Emitter.Ok w ->
+  Worklist.src_ok body ->
+  emit_script mp tl name glob optimize body = Emitter.Ok code ->
+  forall c : chunk,
+  In c (finals w) ->
+  Forall Tr.simple (cstmts c) /\
+  stretch_of body (cstmts c) /\ (exists before after : list instr, code = before ++ flat_map (render_stmt mp) (cstmts c) ++ after).
+Proof. exact CmdConverse.stretch_rendered_in_order. Qed.
+Print Assumptions stretch_rendered_in_order.
+
